@@ -19,6 +19,7 @@ import (
 	"os"
 	"os/exec"
 	"runtime"
+	"sort"
 	"strings"
 	"sync"
 	"time"
@@ -399,6 +400,20 @@ func evalCase(d Desc) outcome {
 	if out.Tris > 0 {
 		if vol := signedVolumeCells(ps, idx, d.Cpu); !(vol > 0) {
 			fails = append(fails, fmt.Sprintf("enclosed volume %g cells^3 is not positive", vol))
+		}
+	}
+
+	// independent reference field (reference.go): samples, volume, distance from the true isosurface
+	if d.Mode != "lattice" {
+		ref, complaint := newReference(d, fs)
+		if complaint != "" {
+			fails = append(fails, complaint)
+		}
+		if msg := ref.checkVertices(ps); msg != "" {
+			fails = append(fails, msg)
+		}
+		if dense != nil {
+			fails = append(fails, ref.checkGrid(dense, signedVolumeCells(ps, idx, d.Cpu), out.Tris)...)
 		}
 	}
 
@@ -873,6 +888,53 @@ func throughBlockStream(r *hx.Rng) []Desc {
 	return out
 }
 
+// Unions judged against the independent reference field: two or three members that overlap, are nested or are
+// disjoint, at cutoff 0, half a cell and one and a half cells below zero, through CombineFields and through one
+// AddField per member (18 cases, all well inside one block).
+func unionStream(r *hx.Rng) []Desc {
+	out := []Desc{}
+	for _, layout := range []string{"overlapping", "nested", "disjoint"} {
+		for ci, depth := range []float64{0, 0.5, 1.5} {
+			for _, mode := range []string{"combine", "add"} {
+				cpu := hx.Pick(r, []float64{4, 5, 8, 10, 12.5, 16})
+				var c [3]float64
+				for k := 0; k < 3; k++ {
+					c[k] = float64(interiorCoord(r)) + r.Float()
+				}
+				at := func(dx, dy, dz float64) [3]float64 {
+					return [3]float64{(c[0] + dx) / cpu, (c[1] + dy) / cpu, (c[2] + dz) / cpu}
+				}
+				var shapes []Shape
+				switch layout {
+				case "overlapping":
+					shapes = []Shape{
+						{Kind: "sphere", P: at(0, 0, 0), R: (4 + r.Float()) / cpu, S: 1},
+						{Kind: "sphere", P: at(3+r.Float(), 1, 0), R: (3.5 + r.Float()) / cpu, S: 1},
+						{Kind: "line", P: at(-2, -1, 1), Q: at(4, 3, -1), R: (2.5 + r.Float()) / cpu, S: 1},
+					}
+				case "nested":
+					shapes = []Shape{
+						{Kind: "sphere", P: at(0.5, 0, 0), R: (2 + r.Float()) / cpu, S: 1},
+						{Kind: "sphere", P: at(0, 0, 0), R: (5.5 + r.Float()) / cpu, S: 1},
+						{Kind: "box", P: at(0, 0.5, 0), Q: [3]float64{3 / cpu, 4 / cpu, 2.5 / cpu}, S: 1},
+					}
+				default:
+					shapes = []Shape{
+						{Kind: "sphere", P: at(-6, 0, 0), R: (3 + r.Float()) / cpu, S: 1},
+						{Kind: "sphere", P: at(6, 0, 0), R: (3 + r.Float()) / cpu, S: 1},
+					}
+				}
+				if (ci+len(out))%2 == 1 {
+					shapes[0], shapes[1] = shapes[1], shapes[0]
+				}
+				out = append(out, Desc{Cpu: cpu, Cutoff: -depth / cpu, Mode: mode, Shapes: shapes, Parallel: r.Chance(1, 4),
+					Note: fmt.Sprintf("%s members, cutoff %.1f cells below zero", layout, depth)})
+			}
+		}
+	}
+	return out
+}
+
 // Short shapes whose extreme below-cutoff sample lies exactly on the first (index 0) or last (index 99) sample
 // plane of a block: for every axis, for the lower and the upper end of the shape, for both planes, alternating
 // between negative and non-negative blocks (12 cases).
@@ -1285,10 +1347,13 @@ func main() {
 	for _, d := range blockPlaneStream(r) {
 		jobs = append(jobs, newJob("block-plane", d))
 	}
+	for _, d := range unionStream(r) {
+		jobs = append(jobs, newJob("union", d))
+	}
 
-	nBig := 2
+	nBig, nFinding := 2, 6
 	if run.Tier == "thorough" {
-		nBig = 16
+		nBig, nFinding = 16, 24
 	}
 	for i := 0; i < run.N; i++ {
 		switch {
@@ -1302,12 +1367,12 @@ func main() {
 		jobs = append(jobs, newJob("large", genBig(r)))
 	}
 	if hires {
-		for i := 0; i < 8; i++ {
+		for i := 0; i < nFinding; i++ {
 			jobs = append(jobs, newJob("hires", genHiRes(r)))
 		}
 	}
 	if pinch {
-		for i := 0; i < 8; i++ {
+		for i := 0; i < nFinding; i++ {
 			jobs = append(jobs, newJob("lattice-on-cutoff", genLattice(r, true)))
 		}
 	}
@@ -1335,25 +1400,34 @@ func main() {
 	for _, j := range extra {
 		record(run, j)
 	}
-	// the four sheets are the expensive cases for the Coq side: spread them over the shards
-	rest, sh := []*job{}, []*job{}
+	// balance the Coq shards (hx cuts the case list into consecutive pieces of ceil(n/16) cases): heaviest terms
+	// first, each to the lightest piece that still has room
+	sort.SliceStable(jobs, func(a, b int) bool { return len(jobs[a].o.Coq) > len(jobs[b].o.Coq) })
+	per := (len(jobs) + 15) / 16
+	if per < 4 {
+		per = 4
+	}
+	nb := (len(jobs) + per - 1) / per
+	bins := make([][]*job, nb)
+	weight := make([]int, nb)
 	for _, j := range jobs {
-		if j.sheet >= 0 {
-			sh = append(sh, j)
-		} else {
-			rest = append(rest, j)
+		best := -1
+		for k := 0; k < nb; k++ {
+			room := per
+			if k == nb-1 {
+				room = len(jobs) - per*(nb-1)
+			}
+			if len(bins[k]) < room && (best < 0 || weight[k] < weight[best]) {
+				best = k
+			}
 		}
+		bins[best] = append(bins[best], j)
+		weight[best] += len(j.o.Coq) + 2000
 	}
-	step := len(rest)/(len(sh)+1) + 1
-	for i, j := range rest {
-		if i%step == 0 && len(sh) > 0 {
-			record(run, sh[0])
-			sh = sh[1:]
+	for _, b := range bins {
+		for _, j := range b {
+			record(run, j)
 		}
-		record(run, j)
-	}
-	for _, j := range sh {
-		record(run, j)
 	}
 	run.Finish()
 }
